@@ -1,1 +1,459 @@
-// harnesses for message (none yet)
+// C13 (layer 1) — canonical encoding: `Message::encode` equals an independent BEP3/5/32 encoder,
+// shape by shape (shape concrete, all content bytes symbolic).
+// C17 — every reply the code's own limits allow fits the 1500-byte receive buffer.
+use super::*;
+use crate::node::NodeHandle;
+use std::net::{Ipv4Addr, Ipv6Addr, SocketAddr};
+
+// ---------------------------------------------------------------------------------------------
+// Independent reference encoder (BEP3 bencoding, BEP5 message layout, BEP32 nodes6/want).
+// Dictionary keys are written in sorted order by construction.
+// ---------------------------------------------------------------------------------------------
+
+pub(crate) struct Out {
+    pub(crate) buf: [u8; 400],
+    pub(crate) len: usize,
+}
+
+impl Out {
+    fn new() -> Self {
+        Out { buf: [0; 400], len: 0 }
+    }
+    fn byte(&mut self, b: u8) {
+        self.buf[self.len] = b;
+        self.len += 1;
+    }
+    fn raw(&mut self, s: &[u8]) {
+        let mut i = 0;
+        while i < s.len() {
+            self.byte(s[i]);
+            i += 1;
+        }
+    }
+    fn num(&mut self, n: usize) {
+        // decimal, no leading zeros
+        if n >= 10000 {
+            self.byte(b'0' + (n / 10000 % 10) as u8);
+        }
+        if n >= 1000 {
+            self.byte(b'0' + (n / 1000 % 10) as u8);
+        }
+        if n >= 100 {
+            self.byte(b'0' + (n / 100 % 10) as u8);
+        }
+        if n >= 10 {
+            self.byte(b'0' + (n / 10 % 10) as u8);
+        }
+        self.byte(b'0' + (n % 10) as u8);
+    }
+    fn bytes(&mut self, s: &[u8]) {
+        self.num(s.len());
+        self.byte(b':');
+        self.raw(s);
+    }
+    fn int(&mut self, n: usize) {
+        self.byte(b'i');
+        self.num(n);
+        self.byte(b'e');
+    }
+}
+
+fn ref_addr(out: &mut Out, a: &SocketAddr) {
+    match a {
+        SocketAddr::V4(a) => out.raw(&a.ip().octets()),
+        SocketAddr::V6(a) => out.raw(&a.ip().octets()),
+    }
+    out.byte((a.port() >> 8) as u8);
+    out.byte((a.port() & 0xff) as u8);
+}
+
+fn ref_want(out: &mut Out, want: &Option<Want>) {
+    if let Some(w) = want {
+        out.bytes(b"want");
+        out.byte(b'l');
+        if matches!(w, Want::V4 | Want::Both) {
+            out.bytes(b"n4");
+        }
+        if matches!(w, Want::V6 | Want::Both) {
+            out.bytes(b"n6");
+        }
+        out.byte(b'e');
+    }
+}
+
+pub(crate) fn ref_encode(m: &Message) -> Out {
+    let mut o = Out::new();
+    o.byte(b'd');
+    match &m.body {
+        MessageBody::Request(r) => {
+            o.bytes(b"a");
+            o.byte(b'd');
+            match r {
+                Request::Ping(p) => {
+                    o.bytes(b"id");
+                    o.bytes(p.id.as_ref());
+                }
+                Request::FindNode(f) => {
+                    o.bytes(b"id");
+                    o.bytes(f.id.as_ref());
+                    o.bytes(b"target");
+                    o.bytes(f.target.as_ref());
+                    ref_want(&mut o, &f.want);
+                }
+                Request::GetPeers(g) => {
+                    o.bytes(b"id");
+                    o.bytes(g.id.as_ref());
+                    o.bytes(b"info_hash");
+                    o.bytes(g.info_hash.as_ref());
+                    ref_want(&mut o, &g.want);
+                }
+                Request::AnnouncePeer(a) => {
+                    o.bytes(b"id");
+                    o.bytes(a.id.as_ref());
+                    if a.port.is_none() {
+                        o.bytes(b"implied_port");
+                        o.int(1);
+                    }
+                    o.bytes(b"info_hash");
+                    o.bytes(a.info_hash.as_ref());
+                    o.bytes(b"port");
+                    o.int(a.port.unwrap_or(0) as usize);
+                    o.bytes(b"token");
+                    o.bytes(&a.token);
+                }
+            }
+            o.byte(b'e');
+            o.bytes(b"q");
+            o.bytes(match r {
+                Request::Ping(_) => b"ping" as &[u8],
+                Request::FindNode(_) => b"find_node",
+                Request::GetPeers(_) => b"get_peers",
+                Request::AnnouncePeer(_) => b"announce_peer",
+            });
+            o.bytes(b"t");
+            o.bytes(&m.transaction_id);
+            o.bytes(b"y");
+            o.bytes(b"q");
+        }
+        MessageBody::Response(r) => {
+            o.bytes(b"r");
+            o.byte(b'd');
+            o.bytes(b"id");
+            o.bytes(r.id.as_ref());
+            if !r.nodes_v4.is_empty() {
+                o.bytes(b"nodes");
+                o.num(r.nodes_v4.len() * 26);
+                o.byte(b':');
+                for n in &r.nodes_v4 {
+                    o.raw(n.id.as_ref());
+                    ref_addr(&mut o, &n.addr);
+                }
+            }
+            if !r.nodes_v6.is_empty() {
+                o.bytes(b"nodes6");
+                o.num(r.nodes_v6.len() * 38);
+                o.byte(b':');
+                for n in &r.nodes_v6 {
+                    o.raw(n.id.as_ref());
+                    ref_addr(&mut o, &n.addr);
+                }
+            }
+            if let Some(t) = &r.token {
+                o.bytes(b"token");
+                o.bytes(t);
+            }
+            if !r.values.is_empty() {
+                o.bytes(b"values");
+                o.byte(b'l');
+                for v in &r.values {
+                    o.num(if v.is_ipv4() { 6 } else { 18 });
+                    o.byte(b':');
+                    ref_addr(&mut o, v);
+                }
+                o.byte(b'e');
+            }
+            o.byte(b'e');
+            o.bytes(b"t");
+            o.bytes(&m.transaction_id);
+            o.bytes(b"y");
+            o.bytes(b"r");
+        }
+        MessageBody::Error(e) => {
+            o.bytes(b"e");
+            o.byte(b'l');
+            o.int(e.code as usize);
+            o.bytes(e.message.as_bytes());
+            o.byte(b'e');
+            o.bytes(b"t");
+            o.bytes(&m.transaction_id);
+            o.bytes(b"y");
+            o.bytes(b"e");
+        }
+    }
+    o.byte(b'e');
+    o
+}
+
+fn same(enc: &[u8], r: &Out) {
+    assert!(enc.len() == r.len, "C13: encoded length differs from the canonical bencoding");
+    let mut i = 0;
+    while i < r.len {
+        assert!(enc[i] == r.buf[i], "C13: encoding differs from the canonical bencoding");
+        i += 1;
+    }
+}
+
+fn any_id() -> NodeId {
+    let b: [u8; 20] = kani::any();
+    NodeId::from(b)
+}
+
+fn any_v4() -> SocketAddr {
+    let o: [u8; 4] = kani::any();
+    let p: u16 = kani::any();
+    SocketAddr::from((Ipv4Addr::from(o), p))
+}
+
+fn any_v6() -> SocketAddr {
+    let o: [u8; 16] = kani::any();
+    let p: u16 = kani::any();
+    SocketAddr::from((Ipv6Addr::from(o), p))
+}
+
+fn check_encode(m: &Message) {
+    let enc = m.encode();
+    assert!(enc.is_ok(), "C13: a well-formed message failed to encode");
+    let enc = enc.unwrap();
+    assert!(enc.len() <= 1500, "C17: encoded message longer than 1500 bytes");
+    let r = ref_encode(m);
+    same(&enc, &r);
+    kani::cover!(true, "end of harness reached");
+}
+
+#[kani::proof]
+#[kani::unwind(60)]
+fn c13_encode_ping() {
+    let t: [u8; 2] = kani::any();
+    let m = Message {
+        transaction_id: t.to_vec(),
+        body: MessageBody::Request(Request::Ping(PingRequest { id: any_id() })),
+    };
+    check_encode(&m);
+}
+
+#[kani::proof]
+#[kani::unwind(120)]
+fn c13_encode_find_node_want_both() {
+    let t: [u8; 8] = kani::any();
+    let m = Message {
+        transaction_id: t.to_vec(),
+        body: MessageBody::Request(Request::FindNode(FindNodeRequest {
+            id: any_id(),
+            target: any_id(),
+            want: Some(Want::Both),
+        })),
+    };
+    check_encode(&m);
+}
+
+#[kani::proof]
+#[kani::unwind(120)]
+fn c13_encode_get_peers_want_v6() {
+    let t: [u8; 8] = kani::any();
+    let m = Message {
+        transaction_id: t.to_vec(),
+        body: MessageBody::Request(Request::GetPeers(GetPeersRequest {
+            id: any_id(),
+            info_hash: any_id(),
+            want: Some(Want::V6),
+        })),
+    };
+    check_encode(&m);
+}
+
+#[kani::proof]
+#[kani::unwind(140)]
+fn c13_encode_announce_explicit_port() {
+    let t: [u8; 8] = kani::any();
+    let tok: [u8; 20] = kani::any();
+    let port: u16 = kani::any();
+    let m = Message {
+        transaction_id: t.to_vec(),
+        body: MessageBody::Request(Request::AnnouncePeer(AnnouncePeerRequest {
+            id: any_id(),
+            info_hash: any_id(),
+            port: Some(port),
+            token: tok.to_vec(),
+        })),
+    };
+    check_encode(&m);
+}
+
+#[kani::proof]
+#[kani::unwind(140)]
+fn c13_encode_announce_implied_port() {
+    let t: [u8; 8] = kani::any();
+    let tok: [u8; 4] = kani::any();
+    let m = Message {
+        transaction_id: t.to_vec(),
+        body: MessageBody::Request(Request::AnnouncePeer(AnnouncePeerRequest {
+            id: any_id(),
+            info_hash: any_id(),
+            port: None,
+            token: tok.to_vec(),
+        })),
+    };
+    check_encode(&m);
+}
+
+#[kani::proof]
+#[kani::unwind(200)]
+fn c13_encode_response_full() {
+    let t: [u8; 2] = kani::any();
+    let tok: [u8; 20] = kani::any();
+    let m = Message {
+        transaction_id: t.to_vec(),
+        body: MessageBody::Response(Response {
+            id: any_id(),
+            values: vec![any_v4(), any_v6()],
+            nodes_v4: vec![NodeHandle::new(any_id(), any_v4())],
+            nodes_v6: vec![NodeHandle::new(any_id(), any_v6())],
+            token: Some(tok.to_vec()),
+        }),
+    };
+    check_encode(&m);
+}
+
+#[kani::proof]
+#[kani::unwind(60)]
+fn c13_encode_response_bare() {
+    let t: [u8; 0] = [];
+    let m = Message {
+        transaction_id: t.to_vec(),
+        body: MessageBody::Response(Response {
+            id: any_id(),
+            values: vec![],
+            nodes_v4: vec![],
+            nodes_v6: vec![],
+            token: None,
+        }),
+    };
+    check_encode(&m);
+}
+
+#[kani::proof]
+#[kani::unwind(60)]
+fn c13_encode_error() {
+    let t: [u8; 2] = kani::any();
+    let code: u8 = kani::any();
+    let m = Message {
+        transaction_id: t.to_vec(),
+        body: MessageBody::Error(Error {
+            code,
+            message: String::from("abc"),
+        }),
+    };
+    let enc = m.encode();
+    assert!(enc.is_ok(), "C13: a well-formed message failed to encode");
+    let enc = enc.unwrap();
+    // d1:eli<code>e3:abce1:t2:..1:y1:ee
+    let mut o = Out::new();
+    o.raw(b"d1:eli");
+    o.num(code as usize);
+    o.raw(b"e3:abce1:t");
+    o.bytes(&m.transaction_id);
+    o.raw(b"1:y1:ee");
+    same(&enc, &o);
+    kani::cover!(true, "end of harness reached");
+}
+
+// ---------------------------------------------------------------------------------------------
+// C17 — size arithmetic. `reply_len` is the closed form of the bencoded size of a get_peers
+// response; it is tied to the real encoder by `c13_encode_response_full` (same reference layout)
+// and evaluated here at the limits the code itself enforces.
+// ---------------------------------------------------------------------------------------------
+
+fn digits(n: usize) -> usize {
+    if n >= 1000 {
+        4
+    } else if n >= 100 {
+        3
+    } else if n >= 10 {
+        2
+    } else {
+        1
+    }
+}
+
+fn bstr_len(n: usize) -> usize {
+    digits(n) + 1 + n
+}
+
+/// size of `d1:rd2:id20:..[5:nodesN:..][6:nodes6N:..][5:token20:..][6:valuesl..e]e1:tN:..1:y1:re`
+pub(crate) fn reply_len(values_v4: usize, values_v6: usize, nodes4: usize, nodes6: usize, token: Option<usize>, t: usize) -> usize {
+    let mut n = 1 + 3 + 1; // d 1:r d
+    n += 4 + bstr_len(20); // 2:id 20:<id>
+    if nodes4 > 0 {
+        n += 7 + bstr_len(nodes4 * 26);
+    }
+    if nodes6 > 0 {
+        n += 8 + bstr_len(nodes6 * 38);
+    }
+    if let Some(tl) = token {
+        n += 7 + bstr_len(tl);
+    }
+    if values_v4 + values_v6 > 0 {
+        n += 8 + 1 + values_v4 * 8 + values_v6 * 21 + 1;
+    }
+    n += 1; // e (end of r)
+    n += 3 + bstr_len(t); // 1:t N:<t>
+    n += 6 + 1; // 1:y1:r e
+    n
+}
+
+/// Every get_peers reply the handler's limits allow (values capped per requester family by
+/// MAX_VALUES_V4 / MAX_VALUES_V6, at most 8 nodes per family, 20-byte token, transaction id of up
+/// to 32 bytes) fits 1500 bytes.
+#[kani::proof]
+fn c17_get_peers_reply_fits() {
+    let v: usize = kani::any();
+    let requester_v6: bool = kani::any();
+    let n4: usize = kani::any();
+    let n6: usize = kani::any();
+    let t: usize = kani::any();
+    let cap = if requester_v6 {
+        crate::handler::MAX_VALUES_V6
+    } else {
+        crate::handler::MAX_VALUES_V4
+    };
+    kani::assume(v <= cap && n4 <= 8 && n6 <= 8 && t <= 32);
+    let len = if requester_v6 {
+        reply_len(0, v, n4, n6, Some(20), t)
+    } else {
+        reply_len(v, 0, n4, n6, Some(20), t)
+    };
+    assert!(len <= 1500, "C17: a get_peers reply within the code's own limits exceeds 1500 bytes");
+    kani::cover!(len > 1400, "a reply near the limit exists");
+}
+
+/// The closed form agrees with the reference encoder on a full small shape (and through
+/// c13_encode_response_full with the real encoder).
+#[kani::proof]
+#[kani::unwind(200)]
+fn c17_reply_len_formula_matches_reference() {
+    let tok: [u8; 20] = kani::any();
+    let t: [u8; 2] = kani::any();
+    let m = Message {
+        transaction_id: t.to_vec(),
+        body: MessageBody::Response(Response {
+            id: any_id(),
+            values: vec![any_v4(), any_v6()],
+            nodes_v4: vec![NodeHandle::new(any_id(), any_v4())],
+            nodes_v6: vec![NodeHandle::new(any_id(), any_v6())],
+            token: Some(tok.to_vec()),
+        }),
+    };
+    let r = ref_encode(&m);
+    assert!(r.len == reply_len(1, 1, 1, 1, Some(20), 2), "C17: size formula disagrees with the reference encoder");
+    kani::cover!(true, "end of harness reached");
+}
